@@ -161,6 +161,11 @@ class FTable(Foreign):
             a = self.cols[key]
             if self.units or self.struct is None:
                 return QCol(a, self.units.get(key))
+            if self.struct:
+                return a                                   # a field of the structured array: bare numbers
+            if isinstance(a, Arr):
+                i = self.names().index(key)
+                return QCol(bare(a), self.get_unit(i))     # a column of an astropy Table: .data (bare numbers) and .unit
             return a
         if isinstance(key, Arr) and key.ndim == 1:
             out = FTable(struct=self.struct, units=self.units)
@@ -394,6 +399,18 @@ class FitsHooks(Hooks):
             if isinstance(v, Arr) and isinstance(ua, Arr):
                 return interp.binop(ast.Mult(), bare(v) if (v.unit is not None and not (v.unit == num(1))) and False else v, ua, node)
             return Unk('Quantity(%r, %r)' % (v, un), node)
+        if name == 'numpy.loadtxt':
+            # a text table: file column k is the symbolic array col<k>; dtype fields / unpack=True follow the order of usecols
+            from .interp import symarr
+            uc = kwargs.get('usecols')
+            dt = kwargs.get('dtype')
+            if isinstance(uc, (list, tuple)) and all(isinstance(k_, int) for k_ in uc):
+                colsym = [symarr('filecol%d' % k_, ('row',), unit=num(1)) for k_ in uc]
+                if isinstance(dt, list) and all(isinstance(f_, tuple) and len(f_) == 2 and isinstance(f_[0], str) for f_ in dt) and len(dt) == len(uc):
+                    return FTable({f_[0]: c_ for f_, c_ in zip(dt, colsym)}, struct=True)
+                if kwargs.get('unpack') is True and not isinstance(dt, list):        # dtype=float or absent: plain columns
+                    return tuple(colsym)
+            return Unk('np.loadtxt form', node)
         if name.startswith('os.path.exists'):
             return not (args and isinstance(args[0], str) and args[0].endswith('.gz'))
         if name.startswith('os.path.') or name.startswith('os.'):
